@@ -20,7 +20,7 @@ from typing import Dict, FrozenSet, List, Optional, Set, Tuple
 
 from ..keval import KEval, Ref
 from ..poly import Poly, ZERO, ONE
-from ..forms import check_accumulate, canon_store, ref_store, short, expr_poly, src_poly as P_
+from ..forms import check_accumulate, canon_store, ref_store, short, expr_poly, src_poly, src_poly as P_
 from .. import wire, paths
 from ..model import norm_text, AnchorMissing, FuncInfo, Project
 from ..controls import Control
@@ -230,8 +230,7 @@ def rule_reduce(ctx, p: Project):
                 flat(a)
                 offs = [t for t in terms if norm_text(t) == "param_range[0]"]
                 rest = [t for t in terms if norm_text(t) != "param_range[0]"]
-                br = [(norm_text(i.test), t) for i, t in wire.enclosing_branches(f, c)]
-                ok = len(offs) == 1 and len(rest) == 1 and ("isinstance(linear_obj, AbstractMapper)", True) in br
+                ok = len(offs) == 1 and len(rest) == 1 and wire.cond_holds(wire.path_conds(f, c), "isinstance(linear_obj, AbstractMapper)")   # nested `if` or `continue` guard alike
                 ctx.ob(rule, f"{name}: local pixel index shifted by param_range[0]", ok, where=f, node=c, construct=f"{name}.append({norm_text(a)[:80]})",
                        message="a pixel index of one mapper must be shifted by that mapper's first parameter index (param_range[0]) exactly once before it addresses the stacked system; "
                                "without the shift the wrong parameters are forced to zero whenever the mapper is not first in the list")
@@ -263,11 +262,22 @@ def rule_data(ctx, p: Project, K: KEval):
     loops = [n for n in f.node.body if isinstance(n, ast.For)]
     ok = len(loops) == 1 and norm_text(loops[0].iter) == "self.linear_obj_list" and isinstance(loops[0].target, ast.Name)
     if ok:
+        # one pass through the loop body with the locals substituted (sa/paths.py): the dict entry of the object is source_quantity[c : c + params] and the running
+        # offset c leaves the iteration as c + params - whatever the offset and its update are called and however they are spelled (index += p; start = stop)
         v = loops[0].target.id
-        body = loops[0].body
-        ok = len(body) == 2 and norm_text(body[0]).replace(" ", "") == f"source_quantity_dict[{v}]=source_quantity[index:index+{v}.params]" and norm_text(body[1]).replace(" ", "") == f"index+={v}.params"
-        init = [n for n in f.node.body if isinstance(n, ast.Assign) and norm_text(n.targets[0]) == "index"]
-        ok = ok and len(init) == 1 and norm_text(init[0].value) == "0"
+        PS = paths.path_summaries(f, body=loops[0].body) or []
+        ok = len(PS) == 1 and PS[0].kind == "fall"
+        if ok:
+            env = PS[0].env
+            sp = paths.store_parts(env.get("source_quantity_dict"))
+            ok = sp is not None and paths.ptext(sp[1]) == v and isinstance(sp[2], ast.Subscript) and paths.ptext(sp[2].value) == "source_quantity" and isinstance(sp[2].slice, ast.Slice) and sp[2].slice.step is None \
+                and isinstance(sp[2].slice.lower, ast.Name)
+            if ok:
+                c = sp[2].slice.lower.id
+                adv = src_poly(f"{c} + {v}.params")
+                ok = expr_poly(sp[2].slice.upper) == adv and c in env and expr_poly(env[c]) == adv
+                init = [n for n in f.node.body if isinstance(n, ast.Assign) and norm_text(n.targets[0]) == c and n.lineno < loops[0].lineno]
+                ok = ok and len(init) == 1 and norm_text(init[0].value) == "0"
     ctx.ob(rule, f.key, ok, where=f, node=loops[0] if loops else f.node, construct="slice [index : index + params], index advanced by params of every object in list order from 0",
            message="each object's slice of the solution must start where the previous object's ended, for every object in list order")
     # per-object products
